@@ -73,7 +73,7 @@ EofRules(e) ==
   \o If(e.n > o.acq.n, "TooManyDirectories")
   \o If(e.stop \notin {"zero", "nofile"}, "ChainNotTerminated")
   \o If(o.acq.kind = "tiff-json" /\ o.acq.meta /\ ~(e.mj_exists /\ e.mj_ok), "MetadataJsonWrong")
-  \o If(e.n # o.count, "HarnessEofCount")
+  \o If(e.n # o.count \/ (e.stop = "zero" /\ o.hdr /\ o.expect # 0), "HarnessEofCount")
 
 Step ==
   /\ l <= Len(Tr) /\ ~done /\ l' = l + 1 /\ done' = FALSE
